@@ -24,7 +24,7 @@ RULE = ("a case is a history of register / call_when_ready / "
 ASSUMPTIONS = ["re-registering an already registered name is not exercised",
                "concurrent quit() calls from several OS threads are outside "
                "the statement"]
-REQUIRED = ["waiters_fired", "fired_on_later_register", "fired_immediately",
+REQUIRED = ["waiters_fired", "dependency_handlers_that_are_not_methods", "sinks_that_are_modules", "fired_on_later_register", "fired_immediately",
             "chained_register", "callback_failed", "ltd_wired", "ltd_events",
             "lifecycles", "up_deferred", "quits", "quits_during_startup",
             "registrations_by_class_or_core_name", "rendezvous_histories_that_go_up",
@@ -333,13 +333,35 @@ class Rdv (object):
     s = dict(deps=sorted(set(comps) | set(extra)), met=0, calls={}, comps=comps)
     self.sinks.append(s)
     ns = {}
-    for c in comps:
+    inst = {}
+    # what a handler may be: a method, a static method, a function or a
+    # partial or a callable object stored on the instance - anything callable
+    # under the right name is a handler (and names a dependency); every
+    # seventh sink is no object of a class at all but a module with functions
+    modsink = (len(self.sinks) % 7 == 6)
+    for ci, c in enumerate(comps):
       def mk (c):
         def h (self_, event):
           s["calls"][c] = s["calls"].get(c, 0) + 1
         return h
-      ns["_handle_%s_Ev" % c] = mk(c)
-    def met (self_):
+      def mk1 (c):
+        def h (event):
+          s["calls"][c] = s["calls"].get(c, 0) + 1
+        return h
+      shape = (len(self.sinks) * 3 + ci) % 6 if not modsink else 2
+      if shape in (0, 5): ns["_handle_%s_Ev" % c] = mk(c)
+      elif shape == 1: ns["_handle_%s_Ev" % c] = staticmethod(mk1(c))
+      elif shape == 2: inst["_handle_%s_Ev" % c] = mk1(c)
+      elif shape == 3:
+        import functools
+        inst["_handle_%s_Ev" % c] = functools.partial(lambda tag, event, f=mk1(c): f(event), "x")
+      else:
+        class _Callable (object):
+          def __init__ (self, f): self.f = f
+          def __call__ (self, event): return self.f(event)
+        inst["_handle_%s_Ev" % c] = _Callable(mk1(c))
+      if shape not in (0, 5): self.rep.count("dependency_handlers_that_are_not_methods")
+    def met (self_=None):
       missing = [d for d in s["deps"] if not rdv.have(d)]
       if missing:
         rdv.mon.fire("dependencies-met before dependencies registered",
@@ -357,8 +379,15 @@ class Rdv (object):
       # events alone
       s["met"] = None
       self.rep.count("sinks_without_the_notification_method")
-    Sink = type("Sink%d" % len(self.sinks), (object,), ns)
-    sink = Sink()
+    if modsink:
+      import types
+      sink = types.ModuleType("sinkmod%d" % len(self.sinks))
+      if "_all_dependencies_met" in ns: inst["_all_dependencies_met"] = lambda: met()
+      self.rep.count("sinks_that_are_modules")
+    else:
+      Sink = type("Sink%d" % len(self.sinks), (object,), ns)
+      sink = Sink()
+    for k, v in inst.items(): setattr(sink, k, v)
     s["sink"] = sink
     s["attrs"] = attrs
     s["clock"] = self.reg_clock
